@@ -267,7 +267,7 @@ impl Property for C17 {
     }
     fn runs(&self, tier: Tier) -> u64 {
         match tier {
-            Tier::Quick => 1_500,
+            Tier::Quick => 4_000,
             Tier::Thorough => 250_000,
         }
     }
